@@ -396,7 +396,7 @@ def coq_obs(st):
 
 
 def coq_snap(snap):
-    return 'None' if snap is None else '(Some (%s, %s))' % (Z(snap[0]), Z(snap[1]))
+    return '(@None (Z * Z))' if snap is None else '(Some (%s, %s))' % (Z(snap[0]), Z(snap[1]))
 
 
 def coq_trace(rec):
@@ -406,8 +406,8 @@ def coq_trace(rec):
             ops.append('(OpFeed %s %s, %s)' % (S(o[1]), 'true' if o[2] else 'false', coq_obs(o[3])))
         else:
             ops.append('(OpAdvance %s, %s)' % (Z(o[1]), coq_obs(o[2])))
-    return '(%s, %s, %s, %s, %s)' % (S(as_text(rec['buf'])), Z(rec['start']), coq_snap(rec['snap']),
-                                     coq_obs(rec['init']), L(ops))
+    return '(%s, %s, %s, %s, (%s : list (op * cobs)))' % (S(as_text(rec['buf'])), Z(rec['start']), coq_snap(rec['snap']),
+                                                          coq_obs(rec['init']), L(ops))
 
 
 def coq_tokobs(f):
@@ -421,7 +421,8 @@ def coq_lex_case(run, tr):
     sl = run.slice
     table = L(['(%s, (%s, %s))' % (Z(p), N(n), S(ty)) for p, n, ty in run.matches])
     toks = L([coq_tokobs((pre,) + f[1:]) for pre, f in run.tokens])
-    return '(%s, %s, %s, %s, %s, %s, %s, %s, %s, (%s, %s, %s))' % (
+    return ('(%s, %s, %s, %s, (%s : list string), (%s : list string), (%s : list (Z * (nat * string))), '
+            '(%s : list tokobs), %s, (%s, %s, %s))') % (
         S(as_text(sl.text)), Z(rec['start']), Z(sl.end), coq_snap(rec['snap']), L([S(x) for x in run.ignore]),
         L([S(x) for x in sorted(run.nlt)]), table, toks, Z(run.code), Z(run.err[0] or 0), Z(run.err[1] or 0), Z(run.err[2] or 0))
 
@@ -643,3 +644,76 @@ def gen_struct_input(rng, comments):
 
 
 WINDOW_PARTS = ['', 'x', '\n', 'ab\n', '\ncd', 'q\n\nr', '(', 'a b', '\n\n\n', ' ']
+
+
+# ============================================================================================ collector
+class Collector:
+    """runs lark under the tracer, applies the property oracle, accumulates the Coq correspondence cases"""
+    def __init__(self, ctx, prefix, oracle, witness, run_witness):
+        self.ctx = ctx
+        self.prefix, self.oracle, self.witness, self.run_witness = prefix, oracle, witness, run_witness
+        self.traces, self.lexes, self.dyns, self.metas = [], [], [], []   # (coq term, witness)
+
+    def run(self, stream, g, parser, lexer, text, rep='str', window=None, api='parse', extra=(), key=None):
+        ctx = self.ctx
+        w = self.witness(g, parser, lexer, text, rep, window, api, extra)
+        out = run_case(g, parser, lexer, text, rep, window, api, extra)
+        if out['kind'] == 'unsupported':
+            ctx.count(stream, nontrivial=False, outcome='unsupported:' + out['why'])
+            return out
+        toks = result_tokens(out)
+        nontriv = len(toks) >= 2 and any((t.line or 0) >= 2 for t in toks)
+        outcome = 'ok' if out['kind'] == 'ok' else out['sig'][0]
+        ctx.count(stream, key=(g, parser, lexer, text, rep, window, api), nontrivial=nontriv,
+                  config='%s/%s/%s%s' % (parser, lexer, rep, '/window' if window else ''), outcome=outcome,
+                  tokens=min(len(toks), 12), api=api)
+        if nontriv:
+            ctx.sample({'grammar': g, 'config': [parser, lexer, rep, api], 'window': window, 'text': text,
+                        'tokens': [tok_fields(t) for t in toks[:8]]}, limit=4)
+        for stage, msg in self.oracle(out)[:3]:
+            ctx.violation(stage, w, True, msg, key=key)
+        tr = out['tracer']
+        for rec in tr.counters.values():
+            if not rec.get('foreign'):
+                self.traces.append((coq_trace(rec), w))
+        for run in tr.runs.values():
+            c = coq_lex_case(run, tr)
+            if c:
+                self.lexes.append((c, w))
+        if out['dynamic'] and toks:
+            self.dyns.append((coq_dyn_case(out['buf'], toks), w))
+        for r in meta_roots(tr):
+            if not tr.pp_calls[r]['filtered']:
+                self.metas.append((coq_ptree(tr, r), w))
+        return out
+
+    def check(self):
+        ctx = self.ctx
+        for name, fn, cases, what in (
+                (self.prefix + '_trace', 'check_trace', self.traces, 'Gen/LineCounter (from_text_slice, feed, advance_to) vs the recorded LineCounter calls'),
+                (self.prefix + '_lex', 'check_lex', self.lexes, 'Pos/LexCoords.lex_slice vs the token stream of BasicLexer.next_token'),
+                (self.prefix + '_dyn', 'check_dyn', self.dyns, 'Pos/LexCoords.dyn_token vs the tokens of the dynamic Earley scanner'),
+                (self.prefix + '_meta', 'check_ptree', self.metas, 'Pos/MetaSpan.build vs the metas written by PropagatePositions')):
+            seen, uniq = set(), []
+            for c, w in cases:           # identical observations (e.g. the same text under two parsers) are checked once
+                if c not in seen:
+                    seen.add(c)
+                    uniq.append((c, w))
+            cases = uniq
+            if not cases:
+                continue
+            bad, errs = ctx.coq_bad_indices(name, IMPORTS, fn, [c for c, _ in cases], chunk=120)
+            ctx.extra.setdefault('coq_case_kinds', {})[fn] = len(cases)
+            for e in errs:
+                ctx.violation('correspondence:coq-eval', {'error': e}, False, e[:300])
+            for i in bad[:5]:
+                w = cases[i][1]
+                # the property's own oracle has already been evaluated on this run; re-evaluate for the report
+                msgs = self.oracle(self.run_witness(w))
+                if msgs:
+                    ctx.violation('correspondence+oracle:' + fn, w, True, msgs[0][1])
+                else:
+                    ctx.violation('correspondence:' + what, dict(w, no_longer_checks=what, coq_case=cases[i][0][:1500]),
+                                  False, 'model and implementation disagree; the property oracle holds on this case')
+
+
